@@ -155,6 +155,10 @@ func initVerifAPI() {
 			}()
 			return tuple{blocked, panicked}
 		},
+		// verifLockCount(): number of sync.Mutex/RWMutex lock acquisitions so far on this path
+		"verifLockCount": func(fr *frame, a []value) value {
+			return fr.in.int64v(int64(fr.in.path.lockEvents))
+		},
 		"verifOnCondWait": func(fr *frame, a []value) value {
 			fr.in.path.condWaitHook = a[0]
 			return nil
